@@ -331,11 +331,8 @@ Definition dsl_binop_eval (st : dsl_store) (op : dsl_binop) (a b : dsl_val) : ds
               | Some r => let '(st', l) := dsl_alloc st (DoArr r) in (PrVal (DvArr l), st')
               end
           | DvArr l1, DvEmpty =>
-              (* Array::Ptr right = rhs is null; it is locked and iterated once per element of the left side *)
-              match dsl_arr st l1 with
-              | [] => let '(st', l) := dsl_alloc st (DoArr []) in (PrVal (DvArr l), st')
-              | _ => (PrAbort DaCrashNull, st)
-              end
+              (* rhs Empty (not ""): a shallow clone of the left side (fix 9eeddcb; before it a null Array::Ptr was dereferenced) *)
+              let '(st', l) := dsl_alloc st (DoArr (dsl_arr st l1)) in (PrVal (DvArr l), st')
           | _, _ => (PrErr DkType, st)     (* rhs "" : conversion to Array::Ptr throws *)
           end
       else (PrErr DkType, st)
@@ -350,8 +347,8 @@ Definition dsl_binop_eval (st : dsl_store) (op : dsl_binop) (a b : dsl_val) : ds
       else if nb then
         if dsl_is_zero b then (PrErr DkRange, st)
         else (dsl_int2 st (fun x y =>
-                          if y =? 0 then PrAbort DaCrashFpe            (* 0 < |rhs| < 1: integer division by zero *)
-                          else if (x =? -2147483648) && (y =? -1) then PrAbort DaCrashFpe
+                          if y =? 0 then PrErr DkRange                (* 0 < |rhs| < 1: the truncated divisor is re-checked (fix 150ea79) *)
+                          else if y =? -1 then PrVal (DvNum 0 0)      (* avoids INT_MIN % -1 *)
                           else PrVal (DvNum (Z.rem x y) 0)) a b, st)
       else (PrErr DkType, st)
   | DbXor => if dsl_numguard a b then (dsl_int2 st (fun x y => PrVal (DvNum (Z.lxor x y) 0)) a b, st) else (PrErr DkType, st)
